@@ -52,10 +52,74 @@ Section TSF.
       apply Z.leb_le in E. rewrite Z.min_l by lia. reflexivity.
   Qed.
 
-  (* one update of the restraint with the factor (rstep with centers_update_tsf), and the run protocol *)
+  (* colvarbias_restraint_k_moving::update with time_step_factor = f: a stage ends at the first awake step at or after its
+     last step ((t - first) mod N < f); the continuous change is updated while t - first < N + f with lambda clamped *)
+  Definition k_update_tsf (f : Z) (c : rcfg) (s : rstate) (t rel : Z) (cont : bool) (xs : list T) : rstate * option (T * T) :=
+    if c_chg_k c then
+      if negb (c_nstages c =? 0) then
+        let s1 :=
+          if t =? s_first s then
+            let lam0 := match c_lambda_sched c with
+                        | [] => if c_decoupling c then n1 O else n0 O
+                        | l0 :: _ => l0 end in
+            set_k s (k_of_lambda O c lam0) (s_kincr s) (s_stage s) (s_FE s)
+          else s in
+        let lam := stage_lambda O c (s_stage s1) in
+        let s2 :=
+          if (s_first s1 <? t) && first_time rel cont &&
+             ((c_equil c =? 0) || (Z.rem (t - s_first s1) (c_nsteps c) >=? c_equil c))
+          then set_k s1 (s_k s1) (s_kincr s1) (s_stage s1)
+                     (nadd O (s_FE s1) (nmul O (dlambda_factor O c lam) (dUdk_sum O c s1 xs)))
+          else s1 in
+        if (Z.rem (t - s_first s2) (c_nsteps c) <? f) && (s_first s2 <? t) && first_time rel cont then
+          let line := (lam, ndiv O (s_FE s2) (nofZ O (c_nsteps c - c_equil c))) in
+          if s_stage s2 <? c_nstages c then
+            let g := s_stage s2 + 1 in
+            (set_k s2 (k_of_lambda O c (stage_lambda O c g)) (s_kincr s2) g (n0 O), Some line)
+          else (s2, Some line)
+        else (s2, None)
+      else if t - s_first s <? c_nsteps c + f then
+        let l := ratio O (Z.min (t - s_first s) (c_nsteps c)) (c_nsteps c) in
+        let lam := if c_decoupling c then nsub O (n1 O) l else l in
+        let k := k_of_lambda O c lam in
+        (set_k s k (nsub O k (s_k s)) (s_stage s) (s_FE s), None)
+      else (set_k s (s_k s) (n0 O) (s_stage s) (s_FE s), None)
+    else (s, None).
+
+  Lemma k_update_tsf_centers f c s t rel cont xs : s_centers (fst (k_update_tsf f c s t rel cont xs)) = s_centers s.
+  Proof. unfold k_update_tsf. split_ifs; reflexivity. Qed.
+  Lemma k_update_tsf_first f c s t rel cont xs : s_first (fst (k_update_tsf f c s t rel cont xs)) = s_first s.
+  Proof. unfold k_update_tsf. split_ifs; reflexivity. Qed.
+
+  Lemma k_update_tsf_1 c s t rel cont xs : 0 < c_nsteps c ->
+    k_update_tsf 1 c s t rel cont xs = k_update O c s t rel cont xs.
+  Proof.
+    intros HN. unfold k_update_tsf, k_update.
+    destruct (c_chg_k c); [|reflexivity].
+    destruct (negb (c_nstages c =? 0)).
+    - set (s1 := if t =? s_first s then _ else s).
+      set (s2 := if (s_first s1 <? t) && _ && _ then _ else s1).
+      assert (H : (Z.rem (t - s_first s2) (c_nsteps c) <? 1) && (s_first s2 <? t) = (Z.rem (t - s_first s2) (c_nsteps c) =? 0) && (s_first s2 <? t)).
+      { destruct (s_first s2 <? t) eqn:E; [|rewrite !andb_false_r; reflexivity]. rewrite !andb_true_r.
+        apply Z.ltb_lt in E. rewrite Z.rem_mod_nonneg by lia.
+        pose proof (Z.mod_pos_bound (t - s_first s2) (c_nsteps c) HN).
+        destruct ((t - s_first s2) mod c_nsteps c =? 0) eqn:E0; [apply Z.eqb_eq in E0; apply Z.ltb_lt; lia | apply Z.eqb_neq in E0; apply Z.ltb_ge; lia]. }
+      rewrite H. reflexivity.
+    - assert (H : (t - s_first s <? c_nsteps c + 1) = (t - s_first s <=? c_nsteps c)).
+      { destruct (t - s_first s <=? c_nsteps c) eqn:E; [apply Z.leb_le in E; apply Z.ltb_lt; lia | apply Z.leb_gt in E; apply Z.ltb_ge; lia]. }
+      rewrite H. destruct (t - s_first s <=? c_nsteps c) eqn:E; [|reflexivity].
+      apply Z.leb_le in E. rewrite Z.min_l by lia. reflexivity.
+  Qed.
+
+  Lemma tsf_one c s t rel cont xs : 0 < c_nsteps c ->
+    centers_update_tsf 1 c s t rel cont = centers_update O c s t rel cont /\
+    k_update_tsf 1 c s t rel cont xs = k_update O c s t rel cont xs.
+  Proof. intros H. split; [apply centers_update_tsf_1 | apply k_update_tsf_1]; exact H. Qed.
+
+  (* one update of the restraint with the factor (rstep with centers_update_tsf and k_update_tsf), and the run protocol *)
   Definition rstep_tsf (f : Z) (c : rcfg) (s : rstate) (t rel : Z) (cont : bool) (xs : list T) : rstate * rout :=
     let s1 := centers_update_tsf f c s t rel cont in
-    let '(s2, line) := k_update O c s1 t rel cont xs in
+    let '(s2, line) := k_update_tsf f c s1 t rel cont xs in
     let tm := terms O c s2 xs in
     let forces := map (@frc3 T) tm in
     let s3 := work_centers O c s2 t rel forces in
@@ -73,9 +137,9 @@ Section TSF.
     s_first (fst (rstep_tsf f c s t rel cont xs)) = s_first (centers_update_tsf f c s t rel cont).
   Proof.
     unfold rstep_tsf.
-    pose proof (k_update_centers O c (centers_update_tsf f c s t rel cont) t rel cont xs) as Hc.
-    pose proof (k_update_first O c (centers_update_tsf f c s t rel cont) t rel cont xs) as Hf.
-    destruct (k_update O c (centers_update_tsf f c s t rel cont) t rel cont xs) as [s2 line]; cbn [fst] in *.
+    pose proof (k_update_tsf_centers f c (centers_update_tsf f c s t rel cont) t rel cont xs) as Hc.
+    pose proof (k_update_tsf_first f c (centers_update_tsf f c s t rel cont) t rel cont xs) as Hf.
+    destruct (k_update_tsf f c (centers_update_tsf f c s t rel cont) t rel cont xs) as [s2 line]; cbn [fst] in *.
     destruct (work_k_fields O c (work_centers O c s2 t rel (map (@frc3 T) (terms O c s2 xs))) rel xs) as [A1 [_ [A3 _]]].
     destruct (work_centers_fields O c s2 t rel (map (@frc3 T) (terms O c s2 xs))) as [B1 [_ [B3 _]]].
     rewrite A1, A3, B1, B3. split; assumption.
